@@ -1,6 +1,6 @@
 SPECIFICATION Spec
-CONSTANTS Configs <- MCConfigs OptNames <- MCOptNames SecNames <- MCSecNames Values <- MCValues
-          Gaps <- MCGaps Blanks <- MCBlanks Terms <- MCTerms MaxNodes = 3 MaxDepth = 2
+CONSTANTS Configs <- MCConfigsQ OptNames <- MCOptNames SecNames <- MCSecNames Values <- MCValues
+          Decos <- MCDecos MaxNodes = 3 MaxDepth = 2
 VIEW View
 INVARIANTS TypeOK
 CHECK_DEADLOCK FALSE
